@@ -18,7 +18,7 @@ ASSUMPTIONS = ['binary64 arithmetic is exact on the generated durations (multipl
                'object identity modelled as insertion index; relation depth <= 300 in generated programs (Python recursion limit is outside the model)']
 RULE = ('random build programs (1-12 commands, 1-4 qubits, 26 operation classes weighted, durations from {0,.25,.5,1,2,3,5}, relation none 55% / explicit 40% / dangling 5%, '
         'nesting depth <= 2, repetition counts 1-3) x random global duration settings; observed plain (operations then duration), duration-first, unrolled, unrolled twice. '
-        'non-trivial: >= 2 leaves and (a nested block or an explicit relation or two operations sharing a qubit); distinct by hash of the case Plus ~13% structured shapes (coregen.gen_structured: parallel first blocks of unequal length under two levels of repetition with a follower of the first, a repeated block starting with a plain operation and containing a repeated block, two relation branches of unequal depth and length meeting through a barrier, a long chain beside a short operation followed by a repeated block, an early-starting operation in a doubly nested block).')
+        'non-trivial: >= 2 leaves and (a nested block or an explicit relation or two operations sharing a qubit); distinct by hash of the case Plus ~13% structured shapes (coregen.gen_structured: parallel first blocks of unequal length under two levels of repetition with a follower of the first, a repeated block starting with a plain operation and containing a repeated block, two relation branches of unequal depth and length meeting through a barrier, a long chain beside a short operation followed by a repeated block, an early-starting operation in a doubly nested block). Plus observations made AFTER the settings changed (coregen.gen_after_change): the circuit is built, unrolled, listed and every duration read; then the global durations are rotated (half of the cases) and the registry durations permuted (a third of the cases near 10^6 moving by a few units; a fifth set for the FIRST time), and duration, sub-circuit durations and listing are read again; fixed cases: a repeated body starting with a nested block beside a registry-timed wait whose change flips which ends last, and a first-time set key with a follower.')
 
 
 def gen_cases(rng, tier):
@@ -27,10 +27,14 @@ def gen_cases(rng, tier):
     cases += [coregen.gen_structured(rng) for _ in range(24 if tier == 'quick' else 400)]      # rarely met shapes (coregen.gen_structured)
     for c in cases:
         c['obs'] = ['plain', 'plain_dur_first', 'unrolled']
+    # the relation equations on the numbers reported AFTER the duration settings changed (coregen.gen_after_change)
+    cases += coregen.gen_after_change(rng, 30 if tier == 'quick' else 400, lambda: gen_case(rng, maxlen=rng.choice([4, 8])))
     return cases
 
 
 def to_coq(c, o):
+    if c.get('obs') == ['after_change']:
+        return c_case(*coregen.after_change_as(c, o, 'unrolled'))
     return c_case(c, o)
 
 
@@ -39,7 +43,7 @@ def nontrivial(c, o):
 
 
 def kind(c):
-    return ('nested' if coregen.has_sub(c['prog']) else 'flat') + ('+rel' if coregen.has_rel(c['prog']) else '')
+    return ('after-change:' if c.get('obs') == ['after_change'] else '') + ('nested' if coregen.has_sub(c['prog']) else 'flat') + ('+rel' if coregen.has_rel(c['prog']) else '')
 
 
 def sample(c, o):
